@@ -45,6 +45,7 @@ import threading
 from collections import Counter
 from pathlib import Path
 
+import common
 from common import Suite, Violation, canon, err_enum, quiet, scratch_dir
 import coop
 
@@ -161,6 +162,26 @@ def _faulty_open(suite, get_sched, root):
     return _open
 
 
+def cancel_helper(cls):
+    """`HpcSubmitter._cancel_job`, the method that writes the row of a canceled job — or, when that private helper was
+    renamed, the one method `_update_completed_jobs` calls on `self` that appends a result (a rename is not a change of
+    behaviour: calling the old name raised AttributeError, which the oracle reported as a failing writer)."""
+    fn = cls.__dict__.get("_cancel_job")
+    if fn is not None:
+        return fn
+    import ast
+    import inspect
+    import textwrap
+    tree = ast.parse(textwrap.dedent(inspect.getsource(cls._update_completed_jobs)))
+    called = {n.func.attr for n in ast.walk(tree) if isinstance(n, ast.Call) and isinstance(n.func, ast.Attribute)
+              and isinstance(n.func.value, ast.Name) and n.func.value.id == "self"}
+    cands = [cls.__dict__[n] for n in sorted(called) if inspect.isfunction(cls.__dict__.get(n))
+             and "append_result" in inspect.getsource(cls.__dict__[n])]
+    if len(cands) != 1:
+        raise RuntimeError(f"cannot identify the helper of HpcSubmitter that writes a canceled row: {[c.__name__ for c in cands]}")
+    return cands[0]
+
+
 class ResultsSuite(Suite):
     name = "results"
 
@@ -192,8 +213,8 @@ class ResultsSuite(Suite):
             coop.patched(ra, "SoftFileLock", coop.lock_class(get, on_contended="timeout")),
             coop.patched(ra, open=_faulty_open(self, get, self.root), os=_FaultyOs(self, get, self.root)),
             coop.patched(ra.ResultsAggregator, "_get_node_results_files", recording_glob),
-            coop.patched(jres, "time", _Clock.time),
-            coop.patched(acc, "time", _Clock),
+            coop.patched(jres, "time", common.dual_time(_Clock)),
+            coop.patched(acc, "time", common.dual_time(_Clock)),
         ]
         for p in self._patches:
             p.__enter__()
@@ -707,7 +728,7 @@ class ResultsSuite(Suite):
                 returned.append([p, [self._rowtext(r) for r in stop.result]])
             else:
                 returned.append([p, "raised"])
-                info["exceptions"].append(f"process_results raised {type(stop.exc).__name__}: {stop.exc}")
+                info["exceptions"].append(f"process_results raised {type(common.not_a_harness_mismatch(stop.exc)).__name__}: {stop.exc}")
             w.ctx.clear()
 
         def after_collect_step(i, p, w, stop):
@@ -734,7 +755,7 @@ class ResultsSuite(Suite):
                         ok = True
                         info["appended"].append([o["w"], o["b"], row])
                     elif not isinstance(stop.exc, coop.Timeout):
-                        info["exceptions"].append(f"append raised {type(stop.exc).__name__}: {stop.exc}")
+                        info["exceptions"].append(f"append raised {type(common.not_a_harness_mismatch(stop.exc)).__name__}: {stop.exc}")
                     w.ctx.clear()
                 elif t == "cancel":
                     w = worker(f"p{o['p']}")
@@ -746,7 +767,7 @@ class ResultsSuite(Suite):
                             info["canceled"].append(o["row"])
                             info["cancel_returns"].append(self._rowtext(stop.result))
                         elif not isinstance(stop.exc, coop.Timeout):
-                            info["exceptions"].append(f"_cancel_job raised {type(stop.exc).__name__}: {stop.exc}")
+                            info["exceptions"].append(f"_cancel_job raised {type(common.not_a_harness_mismatch(stop.exc)).__name__}: {stop.exc}")
                         w.ctx.clear()
                 elif t == "begin":
                     w = worker(f"p{o['p']}")
@@ -853,7 +874,7 @@ class ResultsSuite(Suite):
                 def time():
                     return next(ticks)
             saved = (self.acc.time, self.jres.time)
-            self.acc.time, self.jres.time = T, T.time
+            self.acc.time, self.jres.time = common.dual_time(T), common.dual_time(T)
             try:
                 cmd._complete()
             finally:
@@ -868,7 +889,7 @@ class ResultsSuite(Suite):
         def job():
             _Clock.now = fnum(row[4])
             agg = RA.load(out)
-            return HpcSubmitter._cancel_job(_SubmitterStub(out), _JobStub(row[0]), agg)
+            return cancel_helper(HpcSubmitter)(_SubmitterStub(out), _JobStub(row[0]), agg)
         return job
 
     def _observe(self, out, cons, cons_lock, batches, node_path, returned, ok, dead=()):
